@@ -334,7 +334,7 @@ PROPS = {
             "L19: gamma-_k - gamma+_k > mv_k - mf_k for the minima of the compilation entries iff the revised ranking accepts conditional k (arithmetic of minima)",
             "the three compilations list, per conditional, exactly the verifying / falsifying worlds with their rank and the other conditionals they verify / falsify (bounded: agreement of the compilations with a brute force)",
             "MASK: a literal mask returned by _extract_cond_masks decides verification / falsification of its conditional from two bits of a world (bounded: module c19 compares the mask path with the solver path)",
-            "BITS: the dictionary {w: [int(b) for b in w] ...} built by CRevisionModel.__init__ has the worlds as keys and maps each to its bits (string manipulation; bounded: module c19)",
+            "precondition of CRevisionModel.__init__: the worlds of the ranking are strings of integer literals (bitstrings)",
             "to_compilation reads the caches faithfully (bounded)",
         ],
         explanation="Engine P proves the constraint-system side of c-revision from the real source: symbolize_minima_expression (every "
